@@ -72,7 +72,9 @@ type ExtraFile struct {
 }
 
 type HarnessDef struct {
-	Property string            `json:"property"`
+	Property   string   `json:"property"`
+	Properties []string `json:"properties,omitempty"` // all properties whose oracle labels this harness carries
+	PanicProp  string   `json:"panic_property,omitempty"` // property charged with panics/hangs (default: first)
 	Name     string            `json:"name"`
 	Pkg      string            `json:"pkg"`   // relative to /repo
 	Entry    string            `json:"entry"` // function name
@@ -90,6 +92,34 @@ type HarnessDef struct {
 
 type Index struct {
 	Harnesses []HarnessDef `json:"harnesses"`
+}
+
+func (h *HarnessDef) props() []string {
+	if len(h.Properties) > 0 {
+		return h.Properties
+	}
+	return []string{h.Property}
+}
+
+func (h *HarnessDef) hasProp(p string) bool {
+	for _, x := range h.props() {
+		if x == p {
+			return true
+		}
+	}
+	return false
+}
+
+// labelProp maps an assertion label to the property it belongs to: labels are
+// written "cNN-what"; "panic" and "hang" belong to the harness's panic property.
+func (h *HarnessDef) labelProp(label string) string {
+	if len(label) >= 4 && (label[0] == 'c' || label[0] == 'C') && label[3] == '-' {
+		return "C" + label[1:3]
+	}
+	if h.PanicProp != "" {
+		return h.PanicProp
+	}
+	return h.props()[0]
 }
 
 func loadIndex() (*Index, error) {
@@ -125,7 +155,7 @@ func runCheck(prop, tier, only string, verbose bool, workers int) int {
 			}
 			continue
 		}
-		if h.Property == prop {
+		if h.hasProp(prop) {
 			sel = append(sel, h)
 		}
 	}
@@ -134,7 +164,7 @@ func runCheck(prop, tier, only string, verbose bool, workers int) int {
 		return 2
 	}
 	if prop == "" {
-		prop = sel[0].Property
+		prop = sel[0].props()[0]
 	}
 	seed := 0
 	if s := os.Getenv("VERIF_SEED"); s != "" {
